@@ -2,7 +2,7 @@
 import importlib
 
 CONTRACT_MODULES = ["contracts.c_bip32", "contracts.c_keys", "contracts.c_wallet_utils", "contracts.c_base_wallet",
-                    "contracts.c_bip85", "contracts.c_paper_wallet", "contracts.c_main", "contracts.c_script", "contracts.c_base58", "contracts.c_bip39", "contracts.c_helper", "contracts.c_ripemd"]
+                    "contracts.c_bip85", "contracts.c_paper_wallet", "contracts.c_main", "contracts.c_script", "contracts.c_base58", "contracts.c_bip39", "contracts.c_helper", "contracts.c_ripemd", "contracts.c_bech32"]
 
 COMMON_TB = [
     "H1-H4: hashlib/hmac/pbkdf2/unicodedata are deterministic total functions with the standard output lengths (uninterpreted, same symbols in code and spec)",
@@ -15,12 +15,14 @@ COMMON_ASSUME = [
 ]
 
 
-def contract_items(pid, **extra):
+def contract_items(pid, tier="thorough", **extra):
     items = []
     for m in CONTRACT_MODULES:
         mod = importlib.import_module(m)
         for c in mod.CONTRACTS:
             if pid in getattr(c, "props", ()):
+                if getattr(c, "tier", "quick") == "thorough" and tier != "thorough":
+                    continue
                 it = dict(kind="contract", spec=f"{m}:{type(c).__name__}")
                 only = getattr(c, "clauses_for", {}).get(pid)
                 if only:
